@@ -11,6 +11,7 @@ paths that contradict the precondition (z3, linear real arithmetic), and the nf 
    end points         x.end() == x(t_max)  (representation invariant end_g[i] == curve(end_t[i]) at the last knot)
    concat_local       (x1 += x2)(t) == x1(t)                 for t <= t1,   == x1(t1) * x2(t - t1)   for t > t1
    concat_global      x1.concat_global(x2)(t) == x1(t)       for t <  t1,   == x2(t - t1)            for t >= t1
+   ... of a cropped operand   the same two relations with x2 := x2.crop(ta, tb) (segments that carry (T0, Del) != (0, 1))
    crop               x.crop(ta, tb, localize)(s) == x(ta)^-1 * x(ta + s)  (x(ta + s) when not localised)  for 0 <= s <= tb - ta,
                       with identical velocity and acceleration, for ta in ANY segment (2- and 3-segment splines)
    derivatives        D(x(t), t) == x(t) hat(vel(t)),  D(vel, t) == acc   (single path per segment)
@@ -54,6 +55,8 @@ def tu(cfgs):
                   'double*l,double*r,double*lv,double*rv,double*la,double*ra){ S_%s::crop_check<%d>(T,V,g0,ta,tb,s,loc,l,r,lv,rv,la,ra); }\n' % (p, ns, p, ns))
         t += ('extern "C" void %s_concat(const double*T1,const double*V1,const double*g1,const double*T2,const double*V2,const double*g2,'
               'double t,int gl,double*l,double*r){ S_%s::concat_check<2,2>(T1,V1,g1,T2,V2,g2,t,gl,l,r); }\n' % (p, p))
+        t += ('extern "C" void %s_concatcrop(const double*T1,const double*V1,const double*g1,const double*T2,const double*V2,const double*g2,'
+              'double ta,double tb,double t,int gl,int loc,double*l,double*r){ S_%s::concat_crop_check<1,2>(T1,V1,g1,T2,V2,g2,ta,tb,t,gl,loc,l,r); }\n' % (p, p))
     return t
 
 
@@ -341,6 +344,33 @@ def run_relations(g, K, tier="quick", seed=0):
                 res.paths += 1
                 prove("%s::%s/relation/p%d" % (tag, nm, k), cmp_pairs(pv.out("l"), pv.out("r")), pv, (xt, fn, bufs))
         guarded(res, "%s::concat%d" % (tag, gl), go2)
+
+    # ---- concatenation of a CROPPED operand (1 + crop(2 segments)): the appended segments carry their own re-parameterisation
+    for gl in (() if g == "se2" else (0, 1)):
+        def go2c(gl=gl):
+            loc = 1 - gl            # localised crop for concat_local, non-localised for concat_global
+            bufs = [("T", 1, "d"), ("V", N * K, "d"), ("g", R, "d"), ("U", 2, "d"), ("W", 2 * N * K, "d"), ("h", R, "d"), ("ta", None, "d"),
+                    ("tb", None, "d"), ("t", None, "d"), ("gl", None, "int:%d" % gl), ("loc", None, "int:%d" % loc), ("l", R, "d"), ("r", R, "d")]
+            envs = []
+            Ts, Us = DURATIONS[1][0], DURATIONS[2][0]
+            pts, knots = time_grid(Us)
+            t1 = Ts[0]
+            for (ta, tb) in [(pts[1], pts[-2]), (pts[2], pts[3]), (knots[1], pts[-2]), (pts[1], knots[1]), (0.0, knots[-1]), (pts[-3], pts[-2])]:
+                ss = {0.0, tb - ta, (tb - ta) * 0.5, (tb - ta) * 0.25} | {k - ta for k in knots if ta < k < tb}
+                for t in [t1 * 0.5] + [t1 + s_ for s_ in sorted(ss)]:
+                    e = base_env(g, K, 1, rng, Ts)
+                    e.update(base_env(g, K, 2, rng, Us, "U", "W", "h"))
+                    e.update(ta=ta, tb=tb, t=t)
+                    envs.append(e)
+            nm = ("concat_global" if gl else "concat_local") + "(cropped operand)"
+            fn = "%s_concatcrop" % p
+            views = xt.run_concolic(fn, bufs, envs)
+            report_abnormal("%s::%s" % (tag, nm), views)
+            res.functions.add("Spline::" + ("concat_global" if gl else "concat_local"))
+            for k, pv in enumerate(v for v in views if v.status == "ok"):
+                res.paths += 1
+                prove("%s::%s/relation/p%d" % (tag, nm, k), cmp_pairs(pv.out("l"), pv.out("r")), pv, (xt, fn, bufs))
+        guarded(res, "%s::concatcrop%d" % (tag, gl), go2c)
 
     # ---- crop
     for ns in (() if g == "se2" else (2, 3)):
